@@ -264,6 +264,20 @@ func main() {
 		}
 		merge(local)
 	})
+	// d namespaces left open for every d up to the sweep maximum, in six shapes (call site, With context, split
+	// With chain, object marshaler, object in a namespaced context, object as array element)
+	nsMax := 70
+	if thorough {
+		nsMax = 300
+	}
+	par.For(nsMax+1, func(depth int) {
+		local := map[string]struct{}{}
+		enc := zapcore.NewConsoleEncoder(c.EncoderConfig())
+		for _, p := range encx.NamespaceDepthPlacements(depth) {
+			check(run, c, enc, e, p, "namespace-depth", local)
+		}
+		merge(local)
+	})
 	// full leaf alphabet in every context class
 	par.For(len(leaves), func(i int) {
 		local := map[string]struct{}{}
